@@ -17,6 +17,17 @@ import NibabelModel.Lemmas.C15_Tract
   `iop_all_or_none`).  Still partial: a single linked reference run that also carries the writes
   (`refines_list_partial`), and the all-part of in-place arithmetic with an ArraySequence operand
   (`iopSeq_spec_partial`).
+
+  In-place arithmetic and dtypes: an in-place operator calls `ndarray.__iadd__` … on the slice of the
+  buffer, whose result has the buffer's dtype, so `astype(tmp.dtype, copy=False)` never copies: the
+  operation either reaches ALL shared arrays (`iop_all_or_none`, `iopSeq_all_or_none`) or NumPy raises at
+  the first array, before anything is written — NONE (`iopF_ok_iff`, `iopSeq_step_ok_iff`, over tables
+  regenerated from NumPy).  There is no "promoting copy" branch for in-place operators in the code.
+
+  Tractograms (last section): `tinv_run` (every tractogram history keeps `Inv` and every held sequence
+  live), `tract_creation_changes_nothing`, `textend_only_receiver_changes`, `textend_preserves_donor`,
+  `growing_derived_tractogram_preserves_parent`, `growing_accumulator_preserves_donors`.  Not theorems: the
+  contents a grown tractogram shows, and that tractograms never hold a common sequence.
 -/
 namespace Nb.C15
 open Nb
